@@ -58,7 +58,7 @@ impl Logs {
         (source_offset, dst_offset1, len1, dst_offset2, len2)
     }
 
-    #[cfg(target_family = "wasm")]
+    #[cfg(any(target_family = "wasm", shopify_function_verif))]
     pub(crate) fn read_ptrs(&self) -> (*const u8, usize, *const u8, usize) {
         // _After_ filling the buffer, the read offset will _always_ be the
         // same as the write offset.
@@ -99,6 +99,22 @@ decorate_for_target! {
             }
         })
     }
+}
+
+/// Verification hook: what the host would read back for the current thread.
+/// Returns a copy of the ring buffer, its base address, its capacity and the
+/// four words `(ptr1, len1, ptr2, len2)` exactly as `Logs::read_ptrs` reports them.
+#[cfg(shopify_function_verif)]
+pub fn verif_log_view() -> (Vec<u8>, usize, usize, [usize; 4]) {
+    Context::with(|context| {
+        let (ptr1, len1, ptr2, len2) = context.logs.read_ptrs();
+        (
+            context.logs.buffer.to_vec(),
+            context.logs.buffer.as_ptr() as usize,
+            CAPACITY,
+            [ptr1 as usize, len1, ptr2 as usize, len2],
+        )
+    })
 }
 
 #[cfg(test)]
